@@ -45,6 +45,13 @@ func (p *pStringer) String() string {
 	return p.s
 }
 
+// customSafe is an application's own implementation of stick.SafeValue (wrappers may nest).
+type customSafe struct{ v stick.Value }
+
+func (c customSafe) Value() stick.Value     { return c.v }
+func (c customSafe) IsSafe(typ string) bool { return typ == "html" }
+func (c customSafe) SafeFor() []string      { return []string{"html"} }
+
 type vNumber struct{ f float64 }
 
 func (v vNumber) Number() float64 { return v.f }
@@ -262,6 +269,16 @@ func fixtureByID(id string) (stick.Value, error) {
 				}
 			}
 			return out, nil
+		case "float":
+			out := []float64{}
+			for _, it := range items {
+				f, err := strconv.ParseFloat(it, 64)
+				if err != nil {
+					return nil, err
+				}
+				out = append(out, f)
+			}
+			return out, nil
 		case "nilint":
 			return []int(nil), nil
 		}
@@ -371,6 +388,19 @@ func fixtureByID(id string) (stick.Value, error) {
 		}
 		for i := 0; i < n; i++ {
 			in = stick.NewSafeValue(in, "html")
+		}
+		return in, nil
+	case "csafe":
+		n, err := strconv.Atoi(arg(1))
+		if err != nil {
+			return nil, err
+		}
+		in, err := fixtureByID(arg(2))
+		if err != nil {
+			return nil, err
+		}
+		for i := 0; i < n; i++ {
+			in = customSafe{in}
 		}
 		return in, nil
 	case "chan":
